@@ -4,6 +4,7 @@ import (
 	"bytes"
 	"context"
 	"fmt"
+	"io"
 	stdslog "log/slog"
 	"strings"
 	"time"
@@ -335,7 +336,15 @@ func c01table(c *Ctx) {
 		nRoots := 0
 		mkRoot := func() slog.Logger {
 			l := slog.New("gate")
-			l.SetWriter(w1).SetErrorWriter(w2).AddLevelWriter(slog.InfoLevel, w3)
+			if idx%3 == 2 {
+				// every third registry: each class has io.Discard IN FRONT of the recording destination (a device that was
+				// silenced first and given a real destination later): an admitted record still produces output
+				l.SetWriter(io.Discard).AddWriter(w1)
+				l.SetErrorWriter(io.Discard).AddErrorWriter(w2)
+				l.AddLevelWriter(slog.InfoLevel, io.Discard).AddLevelWriter(slog.InfoLevel, w3)
+			} else {
+				l.SetWriter(w1).SetErrorWriter(w2).AddLevelWriter(slog.InfoLevel, w3)
+			}
 			// per-level writers that were added and removed again (for every second severity): an admitted record of
 			// such a severity still produces output
 			for i, lv := range append(append([]slog.Level(nil), builtinLevels...), 99) {
